@@ -201,7 +201,7 @@ def hooks_rule(repo):
             out.append(unrecognised("HOOKS", reg, role, "paths of _register_hooks could not be enumerated", reg.node))
         else:
             out.append(violation("HOOKS", reg, role, "a path registers hooks without `isinstance(module, tuple(module._NON_LINEAR_OPS.keys()))` "
-                                 "being true: decisions %s" % g, reg.node, witness={"decisions": g}))
+                                 "being true: decisions %s" % g, reg.node, semantic=True, witness={"decisions": g}))
     else:
         m = {n.func.attr: unparse(n.args[0]) for n in walk_no_nested(reg.node) if isinstance(n, ast.Call) and isinstance(n.func, ast.Attribute) and n.func.attr.startswith("register_")}
         ok = m == {"register_forward_hook": "_f_hook", "register_forward_pre_hook": "_fp_hook", "register_full_backward_hook": "_b_hook"}
